@@ -5,7 +5,7 @@ E2 = "E2-mirsym"
 ENGINES = [
     {"name": E1, "path": "/verif/lib/kanirun.py", "serves_properties": ["C05", "C08", "C18", "C19"],
      "kind_free_text": "Kani 0.68 proof harnesses (CBMC 6.11 + CaDiCaL) over hyperdriver's compiled functions; harness sources in /verif/kani, instantiated per concrete size by /verif/props/<id>.py"},
-    {"name": E2, "path": "/verif/mirsym/run.py", "serves_properties": ["C02", "C03", "C04", "C05", "C06", "C09", "C12", "C13", "C14", "C15", "C16", "C17", "C20"],
+    {"name": E2, "path": "/verif/mirsym/run.py", "serves_properties": ["C02", "C03", "C04", "C05", "C06", "C09", "C10", "C11", "C12", "C13", "C14", "C15", "C16", "C17", "C19", "C20"],
      "kind_free_text": "path-wise symbolic execution of rustc's MIR (-Zunpretty=mir, regenerated from /repo on every run) with z3 (strings/bit-vectors), cvc5 cross-check, library calls replaced by a contract-level model table, counterexamples replayed through the public API by /verif/native"},
 ]
 NOTES = "see DESIGN.md. exit 0 = all obligations discharged within the stated bounds; exit 1 = VIOLATION (replayed natively); exit 2 = inconclusive (timeout, OOM, unsupported construct, unreproduced counterexample)."
@@ -30,6 +30,10 @@ CLAIMS = {
             "text": "Host header insertion, HTTP/1 request-target rewriting and HTTP/2 sanitising decided for all abstract well-formed URIs x versions x methods x header presets."},
     "C09": {"engine": E2, "design_ref": "DESIGN.md 2/C09", "technique": "symbolic execution of rustc MIR with SMT, channel operations as contract-level models, counterexamples replayed natively", "note": MIR_NOTE,
             "text": "The duplex listener's accept paths decided for every queue of <= 3 connection requests with any subset of clients having given up: an error / end of stream is produced only when the listener's channel is closed. Partial: the serving loop itself and OS listeners are outside (stated)."},
+    "C10": {"engine": E2, "design_ref": "DESIGN.md 2/C10", "technique": "symbolic execution of the rustc-lowered coroutine MIR of the four async fns in virtual time: latencies, stagger delay and deadline are solver variables, the order of timer / completion events is decided by the solver, counterexamples replayed natively in tokio's paused time", "note": MIR_NOTE,
+            "text": "EyeballSet::finish for 0..2 (thorough 0..3) scripted candidates (accept / fail / never, symbolic latency), every delay / timeout / concurrency configuration: the winner is a candidate that accepted and none accepted strictly earlier; an error only after all were tried and failed (the first failure); a timeout only at or after the deadline; no-progress iff there are no candidates; no accepted candidate is missed."},
+    "C11": {"engine": E2, "design_ref": "DESIGN.md 2/C11", "technique": "symbolic execution of the rustc-lowered coroutine MIR in virtual time (same world as C10), start instants of every scripted attempt compared with the pacing rule", "note": MIR_NOTE,
+            "text": "Same domain as C10: candidates start in the given order, at most once, the initial batch at time zero and no more; every later start coincides with the elapsed stagger delay or a failure of a running attempt and is not delayed beyond the stagger delay; nothing that should have started a queued candidate happens before the end without starting it; the race ends by the overall deadline."},
     "C12": {"engine": E2, "design_ref": "DESIGN.md 2/C12", "technique": "symbolic execution of rustc MIR with SMT (z3), counterexamples replayed natively", "note": MIR_NOTE,
             "text": "TlsTransport::call / TlsTransportWrapper::call decided for every URI form and TLS configuration: TLS iff configured and https|wss, server name = URI host, no plaintext connect after a TLS-side error, and building the TLS stream cannot panic for any syntactically valid host."},
     "C14": {"engine": E2, "design_ref": "DESIGN.md 2/C14", "technique": "bounded model checking over rustc MIR (scheduler-driven pool world) + a targeted pre-emption obligation", "note": MIR_NOTE,
@@ -50,7 +54,5 @@ CLAIMS = {
 
 NOT_APPLICABLE = {
     "C01": "end-to-end statement about hyper's codecs, real task scheduling and many concurrent requests; neither engine can execute hyper+tokio (Kani ICE on runtime thread-locals). Its crate-local pieces are decided under C18, C08, C02.",
-    "C10": "the algorithm is a set of nested compiler-generated futures over FuturesUnordered and tokio timers; probes: > 15 min / 3.5 GB without reaching the solver (DESIGN section 0).",
-    "C11": "same blocker as C10.",
     "C07": "GracefulShutdown::poll / Serving::poll / the connection drivers are pin-projected state machines over tokio::sync::watch, the executor and hyper's connection futures; the Kani probe did not terminate and a MIR model of watch + hyper's graceful shutdown would verify my model of hyper rather than the crate (DESIGN.md 2/C07)",
 }
